@@ -270,6 +270,8 @@ func TestHarness(t *testing.T) {
 					emit(guard("linkend", "json-raw", seed, func() SysRecord { return FamEndInEnum(seed, k) }))
 				} else if k < 4 {
 					emit(guard("linkend", "json-raw", seed, func() SysRecord { return FamPanicTwice(seed) }))
+				} else if k < 6 {
+					emit(guard("linkend", "json-raw", seed, func() SysRecord { return FamHealthyStaysUp(seed) }))
 				}
 			}
 			if has("relay") {
